@@ -191,6 +191,21 @@ impl Sut for CounterSut {
     }
 }
 
+/// Drop `v` from a destructor that runs while the thread is unwinding from a panic.
+fn drop_while_unwinding<T>(v: T) {
+    struct Guard<T>(Option<T>);
+    impl<T> Drop for Guard<T> {
+        fn drop(&mut self) {
+            drop(self.0.take());
+        }
+    }
+    let g = Guard(Some(v));
+    let _ = std::panic::catch_unwind(std::panic::AssertUnwindSafe(move || {
+        let _g = g;
+        std::panic::resume_unwind(Box::new("deliberate unwinding"));
+    }));
+}
+
 fn opname<T: std::fmt::Debug>(o: &T) -> String {
     let s = format!("{:?}", o);
     s.split('(').next().unwrap().to_string()
@@ -207,6 +222,8 @@ enum HOp {
     Clear(usize),
     Clone(usize),
     Drop(usize),
+    /// drop the local histogram while the thread is unwinding from a panic
+    DropUnwinding(usize),
     SharedObserve,
 }
 
@@ -241,7 +258,7 @@ impl Sut for HistSut {
                         alive[p] = true;
                     }
                 }
-                HOp::Drop(i) => alive[*i] = false,
+                HOp::Drop(i) | HOp::DropUnwinding(i) => alive[*i] = false,
                 _ => {}
             }
         }
@@ -256,6 +273,7 @@ impl Sut for HistSut {
                 v.extend([HOp::ObserveHi(i), HOp::Clear(i)]);
                 if i == 0 {
                     v.push(HOp::ObserveNeg(i));
+                    v.push(HOp::DropUnwinding(i));
                 }
                 if alive.iter().any(|a| !a) {
                     v.push(HOp::Clone(i));
@@ -312,6 +330,11 @@ impl Sut for HistSut {
                     let p = m_pending[*i].take().unwrap();
                     add(&mut m_shared, &p);
                 }
+                HOp::DropUnwinding(i) => {
+                    drop_while_unwinding(locals[*i].take());
+                    let p = m_pending[*i].take().unwrap();
+                    add(&mut m_shared, &p);
+                }
                 HOp::SharedObserve => {
                     shared.observe(32.0);
                     add(&mut m_shared, &HL { count: 1, sum: 32.0, lo: 0 });
@@ -345,6 +368,8 @@ enum VOp {
     LvRemove(usize, usize),
     LvClone(usize),
     LvDrop(usize),
+    /// drop the local vector while the thread is unwinding from a panic
+    LvDropUnwinding(usize),
     /// direct update through the shared vector
     VUpd(usize),
     /// update through a handle to child "a" obtained at the start
@@ -418,7 +443,7 @@ impl Sut for VecSut {
                         alive[p] = true;
                     }
                 }
-                VOp::LvDrop(i) => alive[*i] = false,
+                VOp::LvDrop(i) | VOp::LvDropUnwinding(i) => alive[*i] = false,
                 _ => {}
             }
         }
@@ -435,6 +460,9 @@ impl Sut for VecSut {
                     v.push(VOp::LvClone(j));
                 }
                 v.push(VOp::LvDrop(j));
+                if j == 1 && self.kind == VK::Histogram {
+                    v.push(VOp::LvDropUnwinding(j));
+                }
             }
         }
         v.extend([VOp::VUpd(0), VOp::VUpd(1), VOp::HandleUpd]);
@@ -531,7 +559,10 @@ impl Sut for VecSut {
                     locals[p] = Some(c);
                     m_locals[p] = Some(BTreeMap::new());
                 }
-                VOp::LvDrop(j) => {
+                VOp::LvDrop(j) | VOp::LvDropUnwinding(j) => {
+                    if let VOp::LvDropUnwinding(_) = op {
+                        drop_while_unwinding(locals[*j].take());
+                    }
                     locals[*j] = None;
                     let ml = m_locals[*j].take().unwrap();
                     if hist_kind {
@@ -606,7 +637,7 @@ fn main() {
     }
     let depth = if thorough { 6 } else { 5 };
     let vdepth = if thorough { 5 } else { 4 };
-    rep.rule = format!("explicit-state BFS (stateright) over all histories up to depth {} (vector models: {}) of the operation menus of 6 models: float/int local counter {{inc, inc_by, flush, reset, clone, drop, shared inc, shared reset}} over <=3 local handles; local histogram {{observe lo/hi, flush, clear, clone, drop(=flush), shared observe}}; local counter vec (float, int) and local histogram vec {{with_label_values(k)+update, flush, remove_label_values(k), clone, drop, direct vec update, update through a kept handle}} over keys {{a,b}} and <=3 local vecs. Each transition replays the history on fresh real objects and compares shared values, pending values and collected children with the ledger after every step. distinct = unique (depth, ledger state) pairs", depth, vdepth);
+    rep.rule = format!("explicit-state BFS (stateright) over all histories up to depth {} (vector models: {}) of the operation menus of 6 models: float/int local counter {{inc, inc_by, flush, reset, clone, drop, shared inc, shared reset}} over <=3 local handles; local histogram {{observe lo/hi/negative, flush, clear, clone, drop(=flush), drop during unwinding(=flush), shared observe}}; local counter vec (float, int) and local histogram vec {{with_label_values(k)+update, flush, remove_label_values(k), clone, drop, direct vec update, update through a kept handle}} over keys {{a,b}} and <=3 local vecs. Each transition replays the history on fresh real objects and compares shared values, pending values and collected children with the ledger after every step. distinct = unique (depth, ledger state) pairs", depth, vdepth);
     rep.bounds = json!({"depth": depth, "vec_depth": vdepth, "local_handles": SLOTS, "keys": KEYS});
     let t = if thorough { 900 } else { 100 };
     // (1) plain exhaustive enumeration of histories (no state merging)
